@@ -37,9 +37,10 @@ def gen_cases(tier):
                 ("full", full, [3], [(1, SRS, -40.0)]),
                 ("deep", deep, [4, 5], [(1, SRS, 85.0)])]
     else:
-        plan = [("full", full, [1, 2, 3], [(p, r, ta) for p in (1, -1) for r in (0.0, SRS) for ta in (-40.0, 0.0, 25.0, 85.0)]),
+        plan = [("full", full, [1, 2], [(p, r, ta) for p in (1, -1) for r in (0.0, SRS) for ta in (-40.0, 0.0, 25.0, 85.0)]),
+                ("full", full, [3], [(1, SRS, -40.0), (1, 0.0, 85.0), (-1, 0.0, 0.0), (-1, SRS, 25.0)]),
                 ("mid", mid, [4], [(1, SRS, -40.0), (-1, 0.0, 85.0)]),
-                ("deep", deep, [4, 5, 6], [(1, SRS, 0.0), (-1, 0.0, -40.0)])]
+                ("deep", deep, [4, 5, 6], [(1, SRS, 0.0)])]
     for pal in pals:
         for fam, T, ns, variants in plan:
             for n in ns:
@@ -48,7 +49,7 @@ def gen_cases(tier):
                         yield dict(fam=fam, f=f, pal=pal, pol=pol, srs=srs, n=n, ta=ta)
         # with phases: one component at a time gets each phase configuration (inactive elements, sleeping loads,
         # dead rows next to live rows that show the temperature columns)
-        for n in ((1, 2) if tier == "quick" else (1, 2, 3, 4)):
+        for n in ((1, 2) if tier == "quick" else (1, 2, 3)):
             for f in mid.iter_forests(n):
                 spec = spec_from_forest(f, pal, 1, SRS)
                 for c in spec["comps"]:
